@@ -24,7 +24,23 @@ echo "demo without patch: exit $(run_demo)" >> "$LOG"
 if ! git -C "$WT" apply "$DST/patch.diff" 2>>"$LOG"; then echo "PATCH DOES NOT APPLY" >> "$LOG"; cat "$LOG"; git -C /repo worktree remove --force "$WT"; exit 1; fi
 echo "demo with patch: exit $(run_demo)" >> "$LOG"
 (cd "$WT" && env -u PYVSC_VERIF PYTHONPATH="$WT/src" timeout 3000 /venv/bin/python -m pytest -q -p no:cacheprovider --timeout=900 \
-   --continue-on-collection-errors -n 8 ve/unit 2>&1 | tail -1) >> "$LOG"
+   --continue-on-collection-errors -n 6 --junitxml=/tmp/seedchk_$ID.xml ve/unit >/dev/null 2>&1)
+/venv/bin/python - "$ID" >> "$LOG" <<'PY'
+import sys, xml.etree.ElementTree as ET
+try:
+    t = ET.parse('/tmp/seedchk_%s.xml' % sys.argv[1])
+    tot = bad = 0
+    names = []
+    for tc in t.iter('testcase'):
+        tot += 1
+        if any(ch.tag in ('failure', 'error') for ch in tc):
+            bad += 1
+            names.append("%s::%s" % (tc.get('classname'), tc.get('name')))
+    print("repository suite with patch: %d tests, %d failed %s" % (tot, bad, names[:5]))
+except Exception as e:
+    print("repository suite with patch: NO RESULT (%r)" % (e,))
+PY
+rm -f /tmp/seedchk_$ID.xml
 for c in $CHECKS; do
   out=$(cd /verif && PVS_REPO="$WT" timeout 1800 ./check "$c" --tier quick 2>&1); rc=$?
   echo "check $c (quick) on patched tree: rc=$rc :: $(echo "$out" | grep '^violation:' | head -3 | tr '\n' ';') $(echo "$out" | tail -1)" >> "$LOG"
